@@ -1205,8 +1205,12 @@ pub fn vec_family(thorough: bool) -> Vec<Prog> {
     ("bool", "bool", ["true", "false", "true"], "(if E { \"T\" } else { \"F\" })"),
     ("enum", "En", ["En.A()", "En.B(5)", "En.B(-1)"], "E.show()"),
   ];
-  let ops = ["push0", "push1", "push2", "pop", "get-1", "get0", "get1", "getlen", "set0", "set1", "len"];
-  let max_len = if thorough { 4 } else { 3 };
+  // get and set over the same index alphabet: -1, 0, 1, length
+  let ops = ["push0", "push1", "push2", "pop", "get-1", "get0", "get1", "getlen", "set-1", "set0", "set1", "setlen", "len"];
+  // thorough: additionally every sequence of length 4 over a core alphabet (one push value fewer, no
+  // index 1) - the full alphabet at length 4 would be 140k programs for little new behaviour
+  let core_ops = ["push0", "push1", "pop", "get-1", "get0", "getlen", "set-1", "set0", "setlen", "len"];
+  let max_len = 3;
   for (ename, ety, vals, show) in elems {
     // all op sequences up to max_len; each sequence is its own program (a panic ends the program)
     let mut seqs: Vec<Vec<&str>> = vec![vec![]];
@@ -1222,6 +1226,21 @@ pub fn vec_family(thorough: bool) -> Vec<Prog> {
       }
       seqs.extend(next.iter().cloned());
       level = next;
+    }
+    if thorough {
+      let mut level: Vec<Vec<&str>> = vec![vec![]];
+      for _ in 0..4 {
+        let mut next = vec![];
+        for s in &level {
+          for op in core_ops {
+            let mut s2 = s.clone();
+            s2.push(op);
+            next.push(s2);
+          }
+        }
+        level = next;
+      }
+      seqs.extend(level);
     }
     // several sequences per program would stop at the first panic; so group only panic-free
     // prefixes: each sequence is one function, main calls them all, a panic ends main. To keep the
@@ -1239,7 +1258,7 @@ pub fn vec_family(thorough: bool) -> Vec<Prog> {
             }
             len -= 1;
           }
-          "get-1" | "getlen" => return true,
+          "get-1" | "getlen" | "set-1" | "setlen" => return true,
           "get0" | "set0" => {
             if len < 1 {
               return true;
@@ -1268,6 +1287,8 @@ pub fn vec_family(thorough: bool) -> Vec<Prog> {
           "get0" => body.push_str(&format!("    Process.println(\"get \" :: {});\n", sh("v.get(0)"))),
           "get1" => body.push_str(&format!("    Process.println(\"get \" :: {});\n", sh("v.get(1)"))),
           "getlen" => body.push_str(&format!("    Process.println(\"get \" :: {});\n", sh("v.get(v.length())"))),
+          "set-1" => body.push_str(&format!("    v.set(-1, {});\n", vals[1])),
+          "setlen" => body.push_str(&format!("    v.set(v.length(), {});\n", vals[1])),
           "set0" => body.push_str(&format!("    v.set(0, {});\n", vals[2])),
           "set1" => body.push_str(&format!("    v.set(1, {});\n", vals[0])),
           _ => body.push_str("    Process.println(\"len \" :: Str.fromInt(v.length()));\n"),
@@ -1303,6 +1324,10 @@ pub fn vec_family(thorough: bool) -> Vec<Prog> {
           }
           "get1" if len < 2 => {
             first = "get-out-of-bounds";
+            break;
+          }
+          "set-1" | "setlen" => {
+            first = "set-out-of-bounds";
             break;
           }
           "set0" if len < 1 => {
@@ -1478,6 +1503,73 @@ class Main {
   out
 }
 
+
+// ------------------------------------------------------------------------------------------------
+// generic functions and methods used as *values* under a function-type hint
+// ------------------------------------------------------------------------------------------------
+
+/// A generic function / method with 2 or 3 interface-bounded type parameters, declared under every
+/// permutation of a set of names (so declaration order never coincides with alphabetical order for
+/// all of them), is referenced as a value where the expected function type fixes each parameter to a
+/// different class; the body dispatches through the bounds. Hints: annotated let, argument of a
+/// closed higher-order function, returned from a function, element of a conditional.
+pub fn function_value_family() -> Vec<Prog> {
+  fn perms(names: &[&'static str]) -> Vec<Vec<&'static str>> {
+    if names.len() <= 1 {
+      return vec![names.to_vec()];
+    }
+    let mut out = vec![];
+    for i in 0..names.len() {
+      let mut rest = names.to_vec();
+      let x = rest.remove(i);
+      for mut p in perms(&rest) {
+        p.insert(0, x);
+        out.push(p);
+      }
+    }
+    out
+  }
+  let classes = ["Cat", "Dog", "Owl"];
+  let prelude = "interface Named { method name(): Str }\nclass Cat(val id: int) : Named { method name(): Str = \"cat\" :: Str.fromInt(this.id) }\nclass Dog(val id: int) : Named { method name(): Str = \"dog\" :: Str.fromInt(this.id) }\nclass Owl(val id: int) : Named { method name(): Str = \"owl\" :: Str.fromInt(this.id) }\n";
+  let mut out = vec![];
+  for names in [&["T", "R"][..], &["K", "A", "V"][..]] {
+    for order in perms(names) {
+      let n = order.len();
+      // parameter i has type order[i]; the hint binds it to classes[i]
+      let tparams = order.iter().map(|t| format!("{t}: Named")).collect::<Vec<_>>().join(", ");
+      let params = order.iter().enumerate().map(|(i, t)| format!("p{i}: {t}")).collect::<Vec<_>>().join(", ");
+      let body = (0..n).map(|i| format!("p{i}.name()")).collect::<Vec<_>>().join(" :: \",\" :: ");
+      let fn_type = format!("({}) -> Str", classes[..n].join(", "));
+      let args = (0..n).map(|i| format!("{}.init({})", classes[i], i + 1)).collect::<Vec<_>>().join(", ");
+      for method in [false, true] {
+        let (decl, reference) = if method {
+          (format!("  method <{tparams}> show({params}): Str = this.tag :: {body}\n"), "Lib.init(\"m:\").show".to_string())
+        } else {
+          (format!("  function <{tparams}> show({params}): Str = \"f:\" :: {body}\n"), "Lib.show".to_string())
+        };
+        let hints: [(&str, String); 4] = [
+          ("annotated-let", format!("    let h: {fn_type} = {reference};\n    Process.println(h({args}));\n")),
+          ("argument", format!("    Process.println(Main.apply({reference}));\n")),
+          ("returned", "    Process.println(Main.pick()(ARGS));\n".replace("ARGS", &args)),
+          ("conditional", format!("    let h: {fn_type} = if Main.yes() {{ {reference} }} else {{ {reference} }};\n    Process.println(h({args}));\n")),
+        ];
+        for (hname, stmt) in hints {
+          let text = format!(
+            "{prelude}class Lib(val tag: Str) {{\n{decl}}}\nclass Main {{\n  function yes(): bool = \"1\".toInt() == 1\n  function apply(f: {fn_type}): Str = f({args})\n  function pick(): {fn_type} = {reference}\n  function main(): unit = {{\n{stmt}  }}\n}}\n"
+          );
+          out.push(Prog {
+            family: "function-value",
+            shape: format!("{} with {n} type parameters as a value: {hname}", if method { "method" } else { "function" }),
+            name: format!("function value <{}> {} {hname}", order.join(","), if method { "method" } else { "function" }),
+            text,
+          });
+        }
+      }
+    }
+  }
+  out
+}
+
 pub fn all_families(thorough: bool) -> Vec<Prog> {
   let mut v = vec![];
   v.extend(type_shape_family(thorough));
@@ -1493,6 +1585,7 @@ pub fn all_families(thorough: bool) -> Vec<Prog> {
   v.extend(term_family(thorough));
   v.extend(constant_parameter_family());
   v.extend(escape_family(thorough));
+  v.extend(function_value_family());
   v.extend(vec_family(thorough));
   v.extend(string_family());
   v.extend(pattern_family());
